@@ -41,6 +41,9 @@ structure World where
   /-- private state of consumers that collect (the list comprehension in `findall`,
       the top-level consumer of the driver): a stack of result lists -/
   acc : List (List Term) := []
+  /-- ghost flag, never read by the model: some unification bound a variable to a term that
+      contains it (no occurs check). Such runs are "unspecified" and are not compared. -/
+  cyc : Bool := false
 deriving Inhabited
 
 abbrev R := World × Option Sig
@@ -68,6 +71,12 @@ def bindGen (x : Nat) (t : Term) : Gen := fun k w =>
   let (w', r) := k { w with b := bind w.b x t }
   ({ w' with b := unbind w'.b x }, r)
 
+/-- Ghost bookkeeping: remember that `x := t` created a cyclic term. -/
+def markCyc (f : Nat) (x : Nat) (t : Term) (w : World) : World :=
+  match resolve w.b f t with
+  | some t' => if t'.vars.contains x then { w with cyc := true } else w
+  | none => { w with cyc := true }
+
 /-- `unify_arrays` after the length check: the sub-unifications are opened left to right and
     stay open until after the yield. -/
 def unifyList (u : Term → Term → Gen) : List Term → List Term → Gen
@@ -83,8 +92,8 @@ def unify : Nat → Term → Term → Gen
     | some a1, some a2 =>
       match a1, a2 with
       | .var x, .var y => if x = y then k w else bindGen x (.var y) k w
-      | .var x, t => bindGen x t k w
-      | t, .var y => bindGen y t k w
+      | .var x, t => bindGen x t k (markCyc (f+1) x t w)
+      | t, .var y => bindGen y t k (markCyc (f+1) y t w)
       | .atom s, .atom s' => if s = s' then k w else (w, none)
       | .int i, .int j => if i = j then k w else (w, none)
       | .fn g as, .fn g' as' =>
